@@ -334,6 +334,24 @@ func (c *Chain) Exec(msg sdk.Msg) (resp any, err error, panicked any) {
 	return r, nil, nil
 }
 
+// ExecDry runs the message handler like Exec on a branch of the committed state and discards the branch in every case.
+func (c *Chain) ExecDry(msg sdk.Msg) (err error, panicked any) {
+	defer func() {
+		if r := recover(); r != nil {
+			panicked = r
+			err = fmt.Errorf("panic: %v", r)
+		}
+	}()
+	h := c.App.MsgServiceRouter().Handler(msg)
+	if h == nil {
+		return fmt.Errorf("no handler for %T", msg), nil
+	}
+	ctx, _ := c.Ctx().CacheContext()
+	ctx = ctx.WithGasMeter(newGas(50_000_000))
+	_, e := h(ctx, msg)
+	return e, nil
+}
+
 // Call runs fn on a branch of the committed state; the branch is written only if fn returns nil.
 func (c *Chain) Call(fn func(ctx sdk.Context) error) (err error, panicked any) {
 	defer func() {
